@@ -135,6 +135,7 @@ pub fn replay_graph<M: Model>(edges_path: &str, make: &dyn Fn() -> M, max_div_pe
     let mut tested = vec![false; edges.len()];
     let mut divergences: Vec<Value> = Vec::new();
     let mut div_by_tag: HashMap<String, usize> = HashMap::new();
+    let mut div_by_sig: HashMap<String, usize> = HashMap::new();
     let mut tag_counts: HashMap<String, usize> = HashMap::new();
     let mut op_counts: HashMap<String, usize> = HashMap::new();
     let hook = std::panic::take_hook();
@@ -191,7 +192,11 @@ pub fn replay_graph<M: Model>(edges_path: &str, make: &dyn Fn() -> M, max_div_pe
                     ("panic", msg, Value::Null, Value::Null)
                 }
             };
-            let c = div_by_tag.entry(tag.clone()).or_insert(0);
+            *div_by_tag.entry(tag.clone()).or_insert(0) += 1;
+            // details are kept per (tag, kind, field): a recorded finding under a tag must not use up the room of a different
+            // divergence under the same tag
+            let field: String = detail.split(':').next().unwrap_or("").chars().filter(|ch| !ch.is_ascii_digit()).collect();
+            let c = div_by_sig.entry(format!("{tag}|{kind}|{field}")).or_insert(0);
             *c += 1;
             if *c <= max_div_per_tag {
                 let ops: Vec<Value> = path
